@@ -998,6 +998,9 @@ class State:
         if k == 'Lit':
             if v[0] == 'lit':
                 return v[1] == pat.get('v')
+            if isinstance(pat.get('v'), bool):
+                # `match b { true => .., false => .. }` is the condition `b` itself
+                return self.truth(v) == pat.get('v')
             key = ('atom', ('bin', 'Eq', v, lit(pat.get('v'), pty or '')))
             if key in self.asm:
                 return self.asm[key]
